@@ -108,6 +108,7 @@ type Store struct {
 	gen            map[string]int
 	WriteDuringRun int32
 	SlowCalls      int32
+	slowMutateUs   int64
 }
 
 func key(typ string, id int64) string { return fmt.Sprintf("%s:%d", typ, id) }
@@ -327,7 +328,16 @@ func Run(c Case) (res Result, sig string, err error) {
 	}
 	b.Env.OnCallCtx = st.onCall
 	b.Env.Fault = st.fault
-	b.Env.OnMutate = func(ctx context.Context, typ string, id int64) { st.Write(typ, id) }
+	b.Env.OnMutate = func(ctx context.Context, typ string, id int64) {
+		if us := atomic.LoadInt64(&st.slowMutateUs); us > 0 {
+			// a mutation that takes its time and gives up early when its context ends
+			select {
+			case <-ctx.Done():
+			case <-time.After(time.Duration(us) * time.Microsecond):
+			}
+		}
+		st.Write(typ, id)
+	}
 	sock := fakesock.New()
 	lg := &subLogger{st: st}
 	ctx, cancel := context.WithCancel(context.Background())
@@ -611,6 +621,37 @@ func Run(c Case) (res Result, sig string, err error) {
 				}
 				feats["mutation-id-probe"] = true
 			}
+		case "mutate-abandon":
+			// The client starts a slow mutation, gives it up at once (unsubscribe of its id)
+			// and uses the id for a subscription, all before reading anything: three frames
+			// back to back. Whatever becomes of the mutation (answered or not, applied or
+			// not), the subscription is an accepted subscription like any other.
+			id := a.ID
+			if _, isLive := live[id]; isLive || len(live) >= c.MaxSubs {
+				break
+			}
+			atomic.StoreInt64(&st.slowMutateUs, int64(a.Us))
+			allowedThisSeg["error:"+id] = true
+			lg.mark("M:" + id)
+			if client.Has[id] {
+				feats["id-reuse"] = true
+			}
+			delete(client.State, id)
+			delete(client.Has, id)
+			live[id] = &liveSub{q: a.Q % len(c.Queries), owner: id, since: seg}
+			q := c.Queries[a.Q%len(c.Queries)]
+			vals, _ := json.Marshal(q.Values)
+			var vm map[string]interface{}
+			json.Unmarshal(vals, &vm)
+			sock.SendEnvelope(id, "mutate", map[string]interface{}{"query": fmt.Sprintf(`mutation { bump(typ: %q, id: %d) }`, a.Typ, a.Eid), "variables": map[string]interface{}{}})
+			sock.SendEnvelope(id, "unsubscribe", nil)
+			sock.SendEnvelope(id, "subscribe", map[string]interface{}{"query": c.Texts[a.Q%len(c.Texts)], "variables": vm})
+			ok := barrier()
+			atomic.StoreInt64(&st.slowMutateUs, 0)
+			if !ok {
+				return res, "no-echo", fmt.Errorf("no echo reply after mutate, unsubscribe, subscribe with id %q", id)
+			}
+			feats["mutate-abandoned"] = true
 		case "echo":
 			if !barrier() {
 				return res, "no-echo", fmt.Errorf("no echo reply")
@@ -923,6 +964,9 @@ func Gen(t *rapid.T, lifecycle bool) Case {
 	}
 	n := rapid.IntRange(4, 30).Draw(t, "nactions")
 	kinds := []string{"subscribe", "subscribe", "subscribe", "unsubscribe", "write", "write", "write", "write", "write", "mutate", "echo", "pause", "partial-frame"}
+	if !lifecycle {
+		kinds = append(kinds, "mutate-abandon")
+	}
 	if lifecycle {
 		kinds = append(kinds, "failnext", "malformed-message", "unknown-type", "close", "cancel", "mutate", "subscribe")
 	}
@@ -950,6 +994,11 @@ func Gen(t *rapid.T, lifecycle bool) Case {
 			}
 			a.Typ, a.Eid = ent()
 			a.Fail = rapid.SampledFrom([]string{"", "", "", "canceled", "wrapped", "plain", "safe", "panic"}).Draw(t, "mfail")
+		case "mutate-abandon":
+			a.ID = rapid.SampledFrom(ids).Draw(t, "id")
+			a.Q = rapid.IntRange(0, nq-1).Draw(t, "q")
+			a.Typ, a.Eid = ent()
+			a.Us = rapid.SampledFrom([]int{300, 2000, 20000}).Draw(t, "us")
 		case "pause":
 			a.Us = rapid.SampledFrom([]int{0, 100, 500, 2000}).Draw(t, "us")
 		case "failnext":
